@@ -238,7 +238,7 @@ class IH5InnerNode(IH5Node):
             raise ValueError("Invalid empty path!")
         if key.find("@") >= 0:  # used as attribute separator in the skeleton! TODO
             raise ValueError(f"Invalid symbol '@' in key: '{key}'!")
-        if re.match(r"^[!-~]+$", key) is None:
+        if re.fullmatch(r"[!-~]+", key) is None:
             raise ValueError("Invalid key: Only printable ASCII is allowed!")
         if self._is_attrs and (key.find("/") >= 0 or key == SUBST_KEY):
             raise ValueError(f"Invalid attribute key: '{key}'!")
